@@ -2,6 +2,10 @@
 //! sequential code of lzma-rust2. One binary, one sub-command per property.
 
 mod c01;
+mod c02;
+mod c03;
+mod c04;
+mod corpus;
 mod codec;
 mod common;
 mod refimpl;
@@ -21,6 +25,9 @@ fn main() {
     let t0 = Instant::now();
     match cli.check.as_str() {
         "C01" => c01::run(&cli, &rep),
+        "C02" => c02::run(&cli, &rep),
+        "C03" => c03::run(&cli, &rep),
+        "C04" => c04::run(&cli, &rep),
         other => {
             eprintln!("mc-seq: unknown check {other}");
             std::process::exit(2);
